@@ -341,3 +341,71 @@ package actor
 //@   requires ctxwf(c) && c.envelop != nil && envSender(c.envelop) != nil && !nilptr(envSender(c.envelop))
 //@   modifies c.watchers[*], gmap(published)
 //@   ensures  forall p string :: p in c.watchers ==> old(p in c.watchers) && c.watchers[p] == old(c.watchers[p])
+
+// ---------------------------------------------------------------------------------------------
+// C07: Start / Stop state machine. status: 0 ready, 1 start, 2 stop - only under statusLock
+// ---------------------------------------------------------------------------------------------
+//@ guarded (*System).status by statusLock
+
+//@ func (*cluster.Context).Leave
+//@   trusted
+//@ func (*scheduler.Scheduler).Stop
+//@   trusted
+
+// stop: must be entered WITHOUT statusLock (it takes it itself); one-way transition; every state error returns
+// without doing anything else
+//@ func (*System).stop
+//@   requires !held(s.statusLock) && s.options != nil && s.options.Logger != nil && s.scheduler != nil && s.cancel != nil && 0 <= s.status && s.status <= 2
+//@   requires s.Context != nil ==> ctxwf(s.Context)
+//@   modifies s.status, gmap(told), gmap(toldn), gmap(tells)
+//@   ensures  old(s.status) == 0 ==> result != nil && s.status == 0
+//@   ensures  old(s.status) == 2 ==> result != nil && s.status == 2
+//@   ensures  old(s.status) == 1 ==> s.status == 2
+//@   ensures  old(s.status) != 1 ==> forall r vivid.ActorRef, k mathint :: gcount(told, r, k) == old(gcount(told, r, k))
+//@   ensures  !held(s.statusLock)
+
+// the start-up chain (guard actor, metrics, remoting, cluster) is outside this check: trusted frames
+//@ func chain.New
+//@   trusted
+//@   ensures result != nil
+//@ func chain.WithContext
+//@   trusted
+//@ func (*chain.Chains).Append
+//@   trusted
+//@   ensures result != nil
+//@ func (*chain.Chains).Run
+//@   trusted
+//@ func (*_systemChains).spawnGuardActor
+//@   trusted
+//@ func (*_systemChains).initializeMetrics
+//@   trusted
+//@ func (*_systemChains).initializeRemoting
+//@   trusted
+//@ func (*_systemChains).initializeCluster
+//@   trusted
+//@ func (*System).Stop
+//@   requires !held(s.statusLock) && s.options != nil && s.options.Logger != nil && s.scheduler != nil && s.cancel != nil && 0 <= s.status && s.status <= 2
+//@   requires s.Context != nil ==> ctxwf(s.Context)
+//@   modifies s.status, gmap(told), gmap(toldn), gmap(tells)
+//@   ensures  old(s.status) == 0 ==> result != nil && s.status == 0
+//@   ensures  old(s.status) == 2 ==> result != nil && s.status == 2
+//@   ensures  old(s.status) == 1 ==> s.status == 2
+//@   ensures  !held(s.statusLock)
+
+// Start succeeds once: in `start` / `stop` it returns the state error and changes nothing
+//@ func (*System).Start
+//@   requires systemChains != nil && !held(s.statusLock) && s.options != nil && s.options.Logger != nil && s.options.Context != nil && s.scheduler != nil && s.cancel != nil && 0 <= s.status && s.status <= 2
+//@   requires s.Context != nil ==> ctxwf(s.Context)
+//@   modifies s.status, gmap(told), gmap(toldn), gmap(tells), gmap(spawned)
+//@   ensures  old(s.status) == 1 ==> result != nil && s.status == 1
+//@   ensures  old(s.status) == 2 ==> result != nil && s.status == 2
+//@   ensures  old(s.status) == 0 ==> s.status == 1 || s.status == 2
+//@   ensures  !held(s.statusLock)
+
+// the guardian goroutine: starts with no lock, waits for cancellation, then drives the SAME stop as Stop()
+//@ func (*System).Start$2
+//@   requires s != nil && !held(s.statusLock) && s.options != nil && s.options.Logger != nil && s.options.Context != nil && s.scheduler != nil && s.cancel != nil && 0 <= s.status && s.status <= 2
+//@   requires s.Context != nil ==> ctxwf(s.Context)
+//@   modifies s.status, gmap(told), gmap(toldn), gmap(tells)
+//@   ensures  old(s.status) == 1 ==> s.status == 2
+//@   ensures  !held(s.statusLock)
